@@ -205,6 +205,103 @@ Section SortFacts.
     - apply isort_sorted. intros a b Ha Hb.
       apply (to_asym _ T); eapply Permutation_in; try apply Permutation_sym; eauto.
   Qed.
+
+  (* ---------- a decidable, EXACT guard: is [less] a strict total order on (the distinct elements of) l? ---------- *)
+  Fixpoint pairs_inc (l : list A) : bool :=
+    match l with
+    | [] => true
+    | x :: t => negb (less x x) && forallb (fun y => less x y && negb (less y x)) t && pairs_inc t
+    end.
+  Definition total_b (l : list A) : bool := pairs_inc (isort l).
+
+  Lemma pairs_inc_fwd : forall x t, pairs_inc (x :: t) = true ->
+    less x x = false /\ (forall y, In y t -> less x y = true /\ less y x = false) /\ pairs_inc t = true.
+  Proof.
+    intros x t H. simpl in H. apply andb_true_iff in H. destruct H as [H Ht].
+    apply andb_true_iff in H. destruct H as [Hx Hxt].
+    apply negb_true_iff in Hx. rewrite forallb_forall in Hxt. repeat split; auto.
+    - specialize (Hxt _ H). apply andb_true_iff in Hxt. tauto.
+    - specialize (Hxt _ H). apply andb_true_iff in Hxt. destruct Hxt as [_ B]. apply negb_true_iff in B. auto.
+  Qed.
+
+  Lemma pairs_inc_total : forall s, pairs_inc s = true -> total_on s.
+  Proof.
+    induction s as [|x t IH]; intros H.
+    - constructor; intros; try contradiction.
+    - destruct (pairs_inc_fwd _ _ H) as (Hx & Fwd & Ht).
+      specialize (IH Ht). destruct IH as [I As T Tot].
+      constructor.
+      + intros a [<-|Ia]; auto.
+      + intros a b [<-|Ia] [<-|Ib] L; auto.
+        * apply Fwd; auto.
+        * destruct (Fwd _ Ia). congruence.
+      + intros a b c [<-|Ia] [<-|Ib] [<-|Ic] L1 L2; auto;
+          try (destruct (Fwd _ Ia); congruence);
+          try (destruct (Fwd _ Ib); congruence);
+          try (destruct (Fwd _ Ic); congruence).
+        apply (T a b c); auto.
+      + intros a b [<-|Ia] [<-|Ib] N.
+        * contradiction.
+        * left. apply Fwd; auto.
+        * right. apply Fwd; auto.
+        * apply Tot; auto.
+  Qed.
+
+  Lemma pairs_inc_nodup : forall s, pairs_inc s = true -> NoDup s.
+  Proof.
+    induction s as [|x t IH]; intros H; [constructor|].
+    destruct (pairs_inc_fwd _ _ H) as (Hx & Fwd & Ht).
+    constructor; auto. intros I. destruct (Fwd _ I). congruence.
+  Qed.
+
+  Lemma strictly_pairs_inc : forall s, total_on s -> strictly_sorted s -> pairs_inc s = true.
+  Proof.
+    unfold strictly_sorted. induction s as [|x t IH]; intros T S; auto.
+    inversion S as [|? ? St Fx]; subst. simpl.
+    rewrite (to_irrefl _ T x) by (simpl; auto). simpl.
+    rewrite IH; auto.
+    - rewrite andb_true_r. apply forallb_forall. intros y Iy.
+      rewrite Forall_forall in Fx. rewrite (Fx _ Iy). simpl.
+      rewrite (to_asym _ T x y); simpl; auto.
+    - eapply total_on_incl; [|eauto]. intros ? ?; simpl; auto.
+  Qed.
+
+  Theorem total_b_iff : forall l, total_b l = true <-> NoDup l /\ total_on l.
+  Proof.
+    intros l. unfold total_b. split.
+    - intros H. split.
+      + eapply Permutation_NoDup; [apply isort_perm|]. apply pairs_inc_nodup; auto.
+      + eapply total_on_perm; [apply isort_perm|]. apply pairs_inc_total; auto.
+    - intros [N T].
+      assert (Ts : total_on (isort l)) by (eapply total_on_perm; [apply Permutation_sym, isort_perm|]; auto).
+      apply strictly_pairs_inc; auto.
+      apply weakly_strictly; auto.
+      + eapply Permutation_NoDup; [apply Permutation_sym, isort_perm|]. auto.
+      + apply isort_sorted. intros a b Ha Hb. apply (to_asym _ T); auto.
+  Qed.
+
+  (* canonicity under the exact guard, nothing else assumed about the elements *)
+  Theorem sort_canonical_b : forall (sort : list A -> list A) l l',
+    sort_spec sort -> total_b l = true -> Permutation l l' -> sort l = sort l' /\ sort l = isort l.
+  Proof.
+    intros sort l l' Sp H P. apply total_b_iff in H. destruct H as [N T]. split.
+    - apply (sort_canonical sort sort l l'); auto.
+    - apply (isort_canonical sort l l); auto.
+  Qed.
+
+  Theorem total_b_perm : forall l l', Permutation l l' -> total_b l = total_b l'.
+  Proof.
+    intros l l' P. destruct (total_b l) eqn:E; destruct (total_b l') eqn:E'; auto.
+    - apply total_b_iff in E. destruct E as [N T].
+      assert (X : total_b l' = true).
+      { apply total_b_iff. split; [eapply Permutation_NoDup; eauto|eapply total_on_perm; eauto]. }
+      congruence.
+    - apply total_b_iff in E'. destruct E' as [N T].
+      assert (X : total_b l = true).
+      { apply total_b_iff. split; [eapply Permutation_NoDup; [apply Permutation_sym|]; eauto|
+                                    eapply total_on_perm; [apply Permutation_sym|]; eauto]. }
+      congruence.
+  Qed.
 End SortFacts.
 
 Arguments weakly_sorted {A}.
@@ -213,3 +310,5 @@ Arguments sort_spec {A}.
 Arguments total_on {A}.
 Arguments insert {A}.
 Arguments isort {A}.
+Arguments pairs_inc {A}.
+Arguments total_b {A}.
